@@ -389,6 +389,16 @@ def ja3_cmd(h):
     return obj.ja3()
 
 
+def sh_dec(ty, h):
+    """the fields of a server hello (type 2) / hello retry request (type 6) as the parser returns them"""
+    from cryptoparser.tls.subprotocol import TlsHandshakeServerHello, TlsHandshakeHelloRetryRequest
+    cls = {'2': TlsHandshakeServerHello, '6': TlsHandshakeHelloRetryRequest}[ty]
+    o, n = cls.parse_immutable(bytes.fromhex(h))
+    rnd = o.random if ty == '2' else o.random_bytes
+    return '%d %s %s %d %d %s n=%d' % (o.protocol_version.version.value.code, hx(rnd.compose()), hx(bytes(bytearray(list(o.session_id)))) or '-',
+                                       o.cipher_suite.value.code, o.compression_method.value.code, _show_exts(o.extensions), n)
+
+
 def sh_enc(ver, rnd, sid, suite, comp, exts):
     from cryptodatahub.tls.algorithm import TlsCipherSuite, TlsCompressionMethod
     from cryptoparser.tls.subprotocol import TlsHandshakeServerHello, TlsHandshakeHelloRandom, TlsSessionIdVector
@@ -1445,7 +1455,7 @@ COMMANDS = {
     'rsablob': blob_cmd(rsa_blob), 'dssblob': blob_cmd(dss_blob), 'edblob': blob_cmd(ed_blob), 'ecblob': blob_cmd(ec_blob),
     'keytag': keytag_cmd, 'dsenc': ds_enc, 'mxenc': mx_enc, 'mxdec': mx_dec, 'cookiepair': cookiepair_cmd, 'cookieenc': cookieenc_cmd, 'cookieparams': cookieparams_cmd, 'nameenc': name_enc, 'txtenc': txt_enc, 'rrsigenc': rrsig_enc,
     'dnskeyrsaenc': dnskey_rsa_enc, 'dnskeyecenc': dnskey_ec_enc, 'dnskeyedenc': dnskey_ed_enc, 'dnskeydec': dnskey_dec,
-    'chenc': ch_enc, 'ssl2chenc': ssl2_ch_enc, 'ssl2bigrec': ssl2_big_record, 'ssl2shenc': ssl2_sh_enc, 'chdec': ch_dec, 'ja3impl': ja3_cmd, 'shenc': sh_enc, 'hrrenc': hrr_enc, 'certenc': cert_enc, 'shdenc': shd_enc, 'certreqenc': certreq_enc, 'certreqdec': certreq_dec, 'certstenc': certst_enc, 'certstdec': certst_dec,
+    'chenc': ch_enc, 'ssl2chenc': ssl2_ch_enc, 'ssl2bigrec': ssl2_big_record, 'ssl2shenc': ssl2_sh_enc, 'chdec': ch_dec, 'ja3impl': ja3_cmd, 'shenc': sh_enc, 'hrrenc': hrr_enc, 'shdec': sh_dec, 'certenc': cert_enc, 'shdenc': shd_enc, 'certreqenc': certreq_enc, 'certreqdec': certreq_dec, 'certstenc': certst_enc, 'certstdec': certst_dec,
     'recenc': rec_enc, 'alertenc': alert_enc, 'ccsenc': ccs_enc, 'extenc': ext_enc,
     'pframe': p_frame, 'xframe': x_frame, 'mframe': m_frame, 'cframe': c_frame,
     'popq': p_opq, 'copq': c_opq,
